@@ -231,24 +231,39 @@ Section Run.
           end
       end.
 
-    (** presence checks, in field order *)
-    Definition check_step (st : pstate) (if_ : nat * finfo) : pstate :=
-      let '(i, f) := if_ in
-      if (fi_multiple f || match fi_default f with Some _ => true | None => false end)%bool then st
-      else match nth i (ps_slots st) (SSingle false None) with
-           | SSingle false _ =>
-               match from_none (conv_of i) with
-               | Some v => mkPS (set_slot i (SSingle false (Some v)) (ps_slots st)) (ps_errs st) (ps_flat st)
-               | None => push_err (new_err (KMissingField (fi_name f))) st
-               end
-           | _ => st
-           end.
+    (** presence checks, in field order: a single-valued field without any default that was not
+        seen gets its type's value-for-absent, or is reported missing *)
+    Definition needs_check (f : finfo) : bool :=
+      negb (fi_multiple f || match fi_default f with Some _ => true | None => false end).
+
+    Definition check_one (i : nat) (f : finfo) (s : slot) : slot * list err :=
+      if needs_check f then
+        match s with
+        | SSingle false _ =>
+            match from_none (conv_of i) with
+            | Some v => (SSingle false (Some v), [])
+            | None => (s, [new_err (KMissingField (fi_name f))])
+            end
+        | _ => (s, [])
+        end
+      else (s, []).
+
+    Fixpoint check_all (i : nat) (slots : list slot) (fs : list finfo) : list slot * list err :=
+      match slots, fs with
+      | s :: sr, f :: fr =>
+          let '(s', e) := check_one i f s in
+          let '(sr', er) := check_all (S i) sr fr in
+          (s' :: sr', e ++ er)%list
+      | _, _ => (slots, [])
+      end.
 
     Definition indexed {A} (l : list A) : list (nat * A) := combine (seq 0 (List.length l)) l.
 
     Definition require_fields (st : pstate) : res pstate :=
       match flatten_init st with
-      | Ok st' => Ok (fold_left check_step (indexed finfos) st')
+      | Ok st' =>
+          let '(slots, errs) := check_all 0 (ps_slots st') finfos in
+          Ok (mkPS slots (ps_errs st' ++ errs)%list (ps_flat st'))
       | other => other
       end.
 
